@@ -56,9 +56,10 @@ impl GraphStore for GraphEngine {
     type Snapshot = StorageSnapshot;
 
     fn snapshot(&self) -> Self::Snapshot {
+        let _publish = self.publish_read_guard();
         let i2e = Arc::new(self.scan_i2e_records());
         vpoint!("snapshot.after_i2e");
-        let inner = self.begin_read();
+        let inner = self.begin_read_published();
         let tombstoned_nodes: HashSet<InternalNodeId> = collect_tombstoned_nodes(inner.runs());
         StorageSnapshot {
             inner,
